@@ -614,4 +614,128 @@ theorem pNeed_own (cfg : Cfg) (sh sh' : Sh) (me : Tid) (th th' : Th) (ec ed : Pr
        simp_all [pStage, pParked, noSpaceAt, Th.goto, Th.ret, Sh.park]))
 
 
+/-! ### no lost wake-up, system level -/
+
+/-- some thread other than `ex` is at a program counter satisfying `f` -/
+def exPc (s : St) (ex : Tid) (f : Pc → Bool) : Prop :=
+  ∃ t th, t ≠ ex ∧ s.getTh t = some th ∧ f th.pc = true
+
+/-- no lost wake-up, consumer side -/
+def NLWC (s : St) : Prop := cNeed s.sh s.C.pc (exPc s .c pendC) (exPc s .c pendCd)
+/-- no lost wake-up, producer side -/
+def NLWP (cfg : Cfg) (s : St) : Prop := pNeed cfg s.sh s.P.pc (exPc s .p pendP) (exPc s .p pendPd)
+
+theorem cNeed_congr (sh : Sh) (pc : Pc) (ec ec' ed ed' : Prop) (h1 : ec ↔ ec') (h2 : ed ↔ ed') :
+    cNeed sh pc ec ed ↔ cNeed sh pc ec' ed' := by
+  unfold cNeed; rw [h1, h2]
+
+theorem pNeed_congr (cfg : Cfg) (sh : Sh) (pc : Pc) (ec ec' ed ed' : Prop) (h1 : ec ↔ ec') (h2 : ed ↔ ed') :
+    pNeed cfg sh pc ec ed ↔ pNeed cfg sh pc ec' ed' := by
+  unfold pNeed; rw [h1, h2]
+
+/-- the other threads, apart from the excluded one and the stepping one -/
+def exPc2 (s : St) (ex t : Tid) (f : Pc → Bool) : Prop :=
+  ∃ t0 th0, t0 ≠ ex ∧ t0 ≠ t ∧ s.getTh t0 = some th0 ∧ f th0.pc = true
+
+theorem exPc_split (s : St) (ex t : Tid) (th : Th) (f : Pc → Bool) (hne : t ≠ ex) (hth : s.getTh t = some th) :
+    exPc s ex f ↔ (f th.pc = true ∨ exPc2 s ex t f) := by
+  constructor
+  · rintro ⟨t0, th0, h1, h2, h3⟩
+    by_cases e : t0 = t
+    · subst e; rw [hth] at h2; cases h2; exact Or.inl h3
+    · exact Or.inr ⟨t0, th0, h1, e, h2, h3⟩
+  · rintro (h | ⟨t0, th0, h1, _, h2, h3⟩)
+    · exact ⟨t, th, hne, hth, h⟩
+    · exact ⟨t0, th0, h1, h2, h3⟩
+
+theorem exPc2_step (s : St) (sh' : Sh) (ex t : Tid) (th' : Th) (f : Pc → Bool) :
+    exPc2 (({ s with sh := sh' } : St).setTh t th') ex t f ↔ exPc2 s ex t f := by
+  unfold exPc2
+  constructor
+  · rintro ⟨t0, th0, h1, h2, h3, h4⟩
+    rw [getTh_setTh_other _ t t0 th' (Ne.symm h2), getTh_sh] at h3
+    exact ⟨t0, th0, h1, h2, h3, h4⟩
+  · rintro ⟨t0, th0, h1, h2, h3, h4⟩
+    refine ⟨t0, th0, h1, h2, ?_, h4⟩
+    rw [getTh_setTh_other _ t t0 th' (Ne.symm h2), getTh_sh]; exact h3
+
+theorem exPc_self_step (s : St) (sh' : Sh) (ex : Tid) (th' : Th) (f : Pc → Bool) :
+    exPc (({ s with sh := sh' } : St).setTh ex th') ex f ↔ exPc s ex f := by
+  unfold exPc
+  constructor
+  · rintro ⟨t0, th0, h1, h2, h3⟩
+    rw [getTh_setTh_other _ ex t0 th' (Ne.symm h1), getTh_sh] at h2
+    exact ⟨t0, th0, h1, h2, h3⟩
+  · rintro ⟨t0, th0, h1, h2, h3⟩
+    refine ⟨t0, th0, h1, ?_, h3⟩
+    rw [getTh_setTh_other _ ex t0 th' (Ne.symm h1), getTh_sh]; exact h2
+
+theorem role_not_cons (t : Tid) (pc : Pc) (ht : t ≠ .c) (h : roleOK t (pcRole pc) = true) : pcRole pc ≠ .cons := by
+  intro e; rw [e] at h; cases t <;> simp [roleOK] at h ht
+
+theorem role_not_prod (t : Tid) (pc : Pc) (ht : t ≠ .p) (h : roleOK t (pcRole pc) = true) : pcRole pc ≠ .prod := by
+  intro e; rw [e] at h; cases t <;> simp [roleOK] at h ht
+
+theorem thOK_of_rinv (cfg : Cfg) (base : Nat) (s : St) (h : RInv cfg base s) (t : Tid) (th : Th)
+    (hth : s.getTh t = some th) : ThOK t th := by
+  cases t with
+  | p => simp only [St.getTh, Option.some.injEq] at hth; subst hth; exact h.okP
+  | c => simp only [St.getTh, Option.some.injEq] at hth; subst hth; exact h.okC
+  | k i => exact h.okK i th hth
+
+theorem nlwc_step (cfg : Cfg) (base : Nat) (s s' : St) (t : Tid) (hr : RInv cfg base s) (hl : LInv s)
+    (h : NLWC s) (hs : step cfg s t = some s') : NLWC s' := by
+  obtain ⟨th, sh', th', hth, hst, rfl⟩ := step_some cfg s s' t hs
+  unfold NLWC at h ⊢
+  by_cases e : t = .c
+  · subst e
+    have hC : s.C = th := by simpa [St.getTh] using hth
+    have h' := cNeed_own cfg s.sh sh' .c th th' _ _ (hC ▸ h) hst
+    show cNeed sh' th'.pc _ _
+    exact (cNeed_congr _ _ _ _ _ _ (exPc_self_step s sh' .c th' pendC) (exPc_self_step s sh' .c th' pendCd)).mpr h'
+  · have hok := thOK_of_rinv cfg base s hr t th hth
+    have hsh : (({ s with sh := sh' } : St).setTh t th').sh = sh' := by cases t <;> rfl
+    have hCsame : (({ s with sh := sh' } : St).setTh t th').C = s.C := by
+      cases t with
+      | p => rfl
+      | c => exact absurd rfl e
+      | k i => rfl
+    have hsame : (({ s with sh := sh' } : St).setTh t th').getTh t = some th' :=
+      getTh_setTh_same _ t th th' (by rw [getTh_sh]; exact hth)
+    rw [hsh, hCsame]
+    have h0 := (cNeed_congr _ _ _ _ _ _ (exPc_split s .c t th pendC e hth) (exPc_split s .c t th pendCd e hth)).mp h
+    have h1 := cNeed_other cfg s.sh sh' t th th' s.C.pc _ _ e (role_not_cons t _ e hok.role)
+      (hl.own t th hth) (fun hh => (hl.own .c s.C rfl .cL).mp hh) h0 hst
+    refine (cNeed_congr _ _ _ _ _ _ ?_ ?_).mpr h1
+    · rw [exPc_split _ .c t th' pendC e hsame, exPc2_step]
+    · rw [exPc_split _ .c t th' pendCd e hsame, exPc2_step]
+
+theorem nlwp_step (cfg : Cfg) (base : Nat) (s s' : St) (t : Tid) (hr : RInv cfg base s) (hl : LInv s)
+    (h : NLWP cfg s) (hs : step cfg s t = some s') : NLWP cfg s' := by
+  obtain ⟨th, sh', th', hth, hst, rfl⟩ := step_some cfg s s' t hs
+  unfold NLWP at h ⊢
+  by_cases e : t = .p
+  · subst e
+    have hP : s.P = th := by simpa [St.getTh] using hth
+    have h' := pNeed_own cfg s.sh sh' .p th th' _ _ (hP ▸ h) hst
+    show pNeed cfg sh' th'.pc _ _
+    exact (pNeed_congr _ _ _ _ _ _ _ (exPc_self_step s sh' .p th' pendP) (exPc_self_step s sh' .p th' pendPd)).mpr h'
+  · have hok := thOK_of_rinv cfg base s hr t th hth
+    have hsh : (({ s with sh := sh' } : St).setTh t th').sh = sh' := by cases t <;> rfl
+    have hPsame : (({ s with sh := sh' } : St).setTh t th').P = s.P := by
+      cases t with
+      | p => exact absurd rfl e
+      | c => rfl
+      | k i => rfl
+    have hsame : (({ s with sh := sh' } : St).setTh t th').getTh t = some th' :=
+      getTh_setTh_same _ t th th' (by rw [getTh_sh]; exact hth)
+    rw [hsh, hPsame]
+    have h0 := (pNeed_congr _ _ _ _ _ _ _ (exPc_split s .p t th pendP e hth) (exPc_split s .p t th pendPd e hth)).mp h
+    have h1 := pNeed_other cfg s.sh sh' t th th' s.P.pc _ _ e (role_not_prod t _ e hok.role)
+      (hl.own t th hth) (fun hh => (hl.own .p s.P rfl .pL).mp hh) h0 hst
+    refine (pNeed_congr _ _ _ _ _ _ _ ?_ ?_).mpr h1
+    · rw [exPc_split _ .p t th' pendP e hsame, exPc2_step]
+    · rw [exPc_split _ .p t th' pendPd e hsame, exPc2_step]
+
+
 end Mqtt.Proofs.Ring
